@@ -94,13 +94,22 @@ func c09Transparency(c *core.Ctx) {
 		return
 	}
 	items, stop := gen.ReadAll(p, argv)
-	if stop != len(argv) {
-		c.Inc("T_skipped_not_read_to_end")
-		return
-	}
 	nt := 0
-	for k := len(items) - 1; k >= 0 && items[k].Oc == nil && !strings.HasPrefix(items[k].Pos, "-"); k-- {
-		nt++
+	if stop != len(argv) {
+		// the reader gives up on an option-like token (undeclared, malformed, value missing). Such a line is rejected;
+		// a -- appended at its very end leaves the offending token in front of it and must not rescue the line (in
+		// particular it is never taken as the missing value of an option). Lines that already hold a -- are left alone.
+		for _, t := range argv {
+			if t == "--" {
+				c.Inc("T_skipped_not_read_to_end")
+				return
+			}
+		}
+		c.Inc("T_unreadable_lines")
+	} else {
+		for k := len(items) - 1; k >= 0 && items[k].Oc == nil && !strings.HasPrefix(items[k].Pos, "-"); k-- {
+			nt++
+		}
 	}
 	app := drive.Single(p)
 	c.Journal(descOf(p, argv))
